@@ -480,11 +480,51 @@ NPARTS = 96
 
 
 def shards(tier, seed):
-    return [('int', p) for p in range(NPARTS)] + [('sse', p) for p in range(NPARTS)] + [('x87', p) for p in range(8)]
+    return [('int', p) for p in range(NPARTS)] + [('sse', p) for p in range(NPARTS)] + [('x87', p) for p in range(8)] + [('mode16', 0)]
+
+
+def run_mode16(sh):
+    """The other legitimate configuration (a 16-bit code segment): the register-only rows of the table, encoded for that
+    configuration, must report the read and write sets they report in 32-bit code (those are checked against the CPU)."""
+    from miasmx.arch.ia32_arch import x86mnemo
+    from miasmx.arch.ia32_reg import x86_afs
+    for inst, b32, b16 in c04.mode_twins():
+        try:
+            i32 = x86mnemo.dis(b32)
+            i16 = x86mnemo.dis(b16, {'opmode': x86_afs.u16, 'admode': x86_afs.u16})
+        except Exception:
+            i32 = i16 = None
+        if i32 is None or i16 is None or i32.l != len(b32) or i16.l != len(b16):
+            sh.counters['mode16_not_decoded(C01/C10)'] += 1
+            continue
+        regs = dict((r, 0x1000 + 16 * k) for k, r in enumerate(O.REGS))
+        flags = dict((f, 0) for f in FLAGS)
+        try:
+            r32 = reported_sets(i32, regs, flags, b'')
+        except Exception:
+            sh.counters['mode16_reference_lift_raises(C11)'] += 1
+            continue
+        fam = re.sub(r'^(set|cmov)(' + '|'.join(c04.CC) + ')$', r'\1cc', inst['mn'])
+        wit = {'text': inst['text'], 'code': b32.hex(), 'code16': b16.hex(), 'mode16': True}
+        try:
+            r16 = reported_sets(i16, regs, flags, b'')
+        except Exception as e:
+            sh.case(('mode16', inst['text']), True, cls='%s/%s/mode16' % (inst['mn'], inst['form']))
+            sh.violation('mode16/%s/%d/lift-raises:%s' % (fam, inst['size'], type(e).__name__), '%s: %s lifts in 32-bit code, %s decoded for a 16-bit code segment raises %r' % (inst['text'], b32.hex(), b16.hex(), e), wit)
+            continue
+        sh.case(('mode16', inst['text']), True, cls='%s/%s/mode16' % (inst['mn'], inst['form']))
+        for what, a, b in (('read', r32[0], r16[0]), ('write', r32[2], r16[2])):
+            a, b = set(a) - set(['eip']), set(b) - set(['eip'])
+            if b < a or (a - b):
+                sh.violation('mode16/%s/%d/%s-set-smaller' % (fam, inst['size'], what), '%s: %s in 32-bit code has %s set %s, %s in a 16-bit code segment (the same instruction) has %s' % (
+                    inst['text'], b32.hex(), what, sorted(a), b16.hex(), sorted(b)), wit)
 
 
 def run_shard(shard, tier, seed):
     sh = common.Shard()
+    if shard[0] == 'mode16':
+        run_mode16(sh)
+        return sh
     if shard[0] == 'x87':
         insts = [x for j, x in enumerate(x87_instances()) if j % 8 == shard[1]]
         run_instances(sh, insts, 6 if tier == 'quick' else 40, seed)
@@ -510,6 +550,9 @@ def main(tier, seed):
 
 def replay(w):
     sh = common.Shard()
+    if w.get('mode16'):
+        run_mode16(sh)
+        return [(v['key'], v['detail']) for v in sh.violations if v['witness'].get('text') == w['text']]
     table = c04.instances() + sse_instances() + x87_instances()
     inst = [i for i in table if i['text'] == w['text']]
     if not inst:
